@@ -375,18 +375,16 @@ class YP(object):
     def retract(self, term):
         '''retract(Term) removes all dynamic facts matching Term and backtracks over identical clauses.'''
         name, args = self._goal_name_and_args(term, 'retract/1')
-        remaining_clauses = self._predicates_store.get((name, len(args)), [])[:]
-        i = 0
-        while i < len(remaining_clauses):
-            clause = remaining_clauses[i]
-            match = False
+        key = (name, len(args))
+        # work on the facts as they are now (logical update view): facts added while this
+        # retract is suspended are not visited, facts removed meanwhile are skipped
+        for clause in self._predicates_store.get(key, [])[:]:
+            if not any(c is clause for c in self._predicates_store.get(key, [])):
+                continue
             for cut in clause.match(args):
-                match = True
-                del remaining_clauses[i]
+                remaining_clauses = [c for c in self._predicates_store.get(key, []) if c is not clause]
                 self._update_predicate(self.atom(name), len(args), remaining_clauses)
                 yield False
-            if not match:
-                i += 1
 
     def retractall(self, term):
         '''retractall(Term) removes all dynamic facts matching Term, without backtracking over identical clauses.'''
@@ -587,7 +585,9 @@ class YP(object):
         """
         try:
             clauses = self._find_predicates(name.name(), len(args))
-            return self._match_all_clauses(clauses, args)
+            # enumerate the facts as they are now, whatever is asserted or retracted
+            # while the enumeration is suspended (logical update view)
+            return self._match_all_clauses(clauses[:], args)
         except YPException as e:
             return YPFail()
 
